@@ -137,8 +137,17 @@ impl Scenario for Socks {
             }
         };
         let dest = match rng.below(8) {
-            0 | 1 => Dest::V4("93.184.219.7".into()),
-            2 => Dest::V6("2606:4700::7".into()),
+            0 | 1 => Dest::V4(if rng.chance(1, 2) {
+                "93.184.219.7".into()
+            } else {
+                format!("{}.{}.{}.{}", *rng.pick(&[1u8, 93, 151, 203, 223]), rng.below(256), rng.below(256), rng.below(256))
+            }),
+            // an IPv4-mapped literal is an IPv6 destination (ATYP 4) like any other
+            2 => Dest::V6(match rng.below(4) {
+                0 => "2606:4700::7".into(),
+                1 => format!("::ffff:93.184.{}.{}", rng.below(256), 1 + rng.below(254)),
+                _ => format!("2a00:{:x}:{:x}:{:x}:{:x}:{:x}:{:x}:{:x}", rng.below(0x10000), rng.below(0x10000), rng.below(0x10000), rng.below(0x10000), rng.below(0x10000), rng.below(0x10000), 1 + rng.below(0xffff)),
+            }),
             3 => Dest::Udp(1 + rng.usize_below(4)),
             _ => {
                 let l = match rng.below(6) {
@@ -184,7 +193,10 @@ impl Scenario for Socks {
             creds,
             user_agent: if rng.chance(2, 3) { Some(format!("agent/{} (sim)", rng.below(100))) } else { None },
             dest,
-            port: 1 + rng.below(65_535) as u16,
+            port: match rng.below(6) {
+                0 => *rng.pick(&[1u16, 80, 443, 255, 256, 65_535]),
+                _ => 1 + rng.below(65_535) as u16,
+            },
             behaviour,
             establish_timeout_us: 5_000_300,
         };
@@ -776,10 +788,13 @@ async fn run(plan: KPlan) -> Obs {
 async fn udp_exchange(plan: &KPlan, n: usize, obs: &Shared<Obs>, mut send: impl FnMut(Vec<u8>) -> bool) {
     let src: SocketAddr = "10.8.0.2:50000".parse().unwrap();
     for i in 0..n {
-        let dst: SocketAddr = if i % 2 == 0 {
-            SocketAddr::new("93.184.220.1".parse().unwrap(), 7000 + i as u16)
-        } else {
-            SocketAddr::new("2606:4700::99".parse().unwrap(), 7000 + i as u16)
+        let mut r = Rng::new(plan.seed).fork(&format!("udpdst{}", i));
+        let dst: SocketAddr = match (i % 2, r.below(3)) {
+            (0, 0) => SocketAddr::new("93.184.220.1".parse().unwrap(), 7000 + i as u16),
+            (0, _) => SocketAddr::new(IpAddr::from([*r.pick(&[1u8, 93, 151, 203]), r.below(256) as u8, r.below(256) as u8, 1 + r.below(254) as u8]), 1 + r.below(65_535) as u16),
+            (_, 0) => SocketAddr::new("2606:4700::99".parse().unwrap(), 7000 + i as u16),
+            (_, 1) => SocketAddr::new(format!("::ffff:93.184.{}.{}", r.below(256), 1 + r.below(254)).parse().unwrap(), 1 + r.below(65_535) as u16),
+            _ => SocketAddr::new(format!("2a00:{:x}:{:x}::{:x}", r.below(0x10000), r.below(0x10000), 1 + r.below(0xffff)).parse().unwrap(), 1 + r.below(65_535) as u16),
         };
         let payload = pattern(plan.seed ^ i as u64, 0, 10 + i * 37);
         obs.lock().unwrap().udp_expected.push((dst, payload.clone()));
